@@ -354,6 +354,10 @@ where
                 unique_leaves,
             )
         }))(input)?;
+        if inserted.is_clear() {
+            // a tree without leaves has no maximal number (and no span for it)
+            return fail(span, "expected at least one number in the tree");
+        }
         if let Some(n) = inserted.zeroes().next() {
             return Err(Err::Failure(E::from_external_error(
                 span,
